@@ -377,7 +377,7 @@ func c12Long(c *ev.Ctx, pool []poolStream) {
 			}
 			b = append(b, p.B...)
 			all = append(all, p.Content...)
-				pad := r.Pick(0, 0, 4, 8)
+			pad := r.Pick(0, 0, 4, 8)
 			if i%2 == 1 {
 				// the padding skipped by one reader adds up to a few MiB
 				pad = r.Pick(0, 4, 1024, 2048, 4096, 4*r.Intn(1500))
